@@ -14,7 +14,9 @@ import (
 )
 
 const (
-	KeysIndexSep       = "_"
+	// KeysIndexSep joins path elements and key values to index keys. It must not be a character that can
+	// be part of an element name or a key value, otherwise different paths collide ("a_b","c" vs "a","b_c").
+	KeysIndexSep       = "\x00"
 	DefaultValuesPrio  = int32(math.MaxInt32 - 90)
 	DefaultsIntentName = "default"
 	RunningValuesPrio  = int32(math.MaxInt32 - 100)
